@@ -97,3 +97,32 @@ func addReorgFork(r *rand.Rand, t *Tree, ps *ParamSpec, now0 int64) {
 	}
 	t.reorgLeaf = cur
 }
+
+// genRestartTree: main chain of 8..18 blocks without retargeting (work =
+// number of headers) and three valid branches forking d = 2..5 blocks below
+// its tip: equal work, less work, more work. At most one checkpoint, at or
+// below the fork point.
+func genRestartTree(r *rand.Rand, ps *ParamSpec, now0 int64) *Tree {
+	ps.NoRetarget = true
+	t := newTree(mkParams(*ps, nil))
+	n := 8 + r.Intn(11)
+	cur := t.Nodes[0]
+	for i := 0; i < n; i++ {
+		cur = t.mine(r, cur, dtFor(r, cur), "", now0)
+		t.main = append(t.main, cur)
+	}
+	d := 2 + r.Intn(4)
+	base := t.main[n-d-1] // height n-d
+	grow := func(l int) *Node {
+		c0 := base
+		for i := 0; i < l; i++ {
+			c0 = t.mine(r, c0, dtFor(r, c0), "", now0)
+		}
+		return c0
+	}
+	t.restart = &restartInfo{base: base, tie: grow(d), light: grow(d - 1), heavy: grow(d + 1)}
+	if r.Intn(3) == 0 {
+		ps.Checkpoints = []int{t.main[r.Intn(n-d)].ID} // height 1 .. n-d
+	}
+	return t
+}
